@@ -1,10 +1,13 @@
 import OpusModel.SilkParams
-import OpusModel.Gen.SilkCoreTabs
+import OpusModel.SilkCoreFrozen
 /-
   OpusModel.SilkCore — bit-exact executable model of the SILK frame synthesis at the internal rate
   (property C03, slice SilkCore), part 1: fixed-point macros not already in `OpusModel.SilkParams.Fix`,
   configuration, decoder state, and the VALUES computed by `silk_decode_parameters`
   (silk/decode_parameters.c:35-115).
+
+  Tables and constants are read from the FROZEN copy `Opus.Frozen.SilkCoreTabs` (OpusModel/SilkCoreFrozen.lean), which
+  `OpusProps.C03SilkCore.tables_frozen_eq_repo` proves equal to `Opus.Gen.SilkCoreTabs` regenerated from `/repo`.
 
   The whole SILK decoder is integer code (also in the float build), so this model is a frozen reference for it:
   every number the C code computes is reproduced exactly (32-bit wrap-around and saturation made explicit).
@@ -18,7 +21,7 @@ import OpusModel.Gen.SilkCoreTabs
   `silk_SMLABB_ovflw`, `silk_MLA_ovflw`, `silk_LSHIFT_ovflw`) wraps by design and is a `wrap32`.
 -/
 namespace Opus.SilkCore
-open Opus Opus.SilkParams Opus.Gen
+open Opus Opus.SilkParams Opus.Gen Opus.Frozen
 
 /-! ### macros (silk/macros.h, silk/SigProc_FIX.h, silk/Inlines.h) -/
 
